@@ -54,7 +54,12 @@ RULE = ('cases come from one PRNG. kind tf: one of the seven transforms on a sta
         'measure with the maps theory allows (strictly increasing maps incl. sqrt/rank/minmax '
         'transforms for the rank-based measures, positive scalings for cosine-type, positive affine '
         'maps for correlation-type) against the model measure of the untransformed RDMs. A case is '
-        'non-trivial when some RDM is non-constant; distinct = distinct case contents.')
+        'non-trivial when some RDM is non-constant; distinct = distinct case contents. Scale and offset '
+        'of the values are drawn broadly (tiny 1e-12..1e-6, huge 1e6..1e12, O(1) spread on offsets '
+        '2^20/2^30/2^40, clusters of exact ties next to distinct values with relative gaps 2^-20..2^-39), '
+        'always exactly representable doubles sent unchanged to the exact model; the increasing maps '
+        'include rescaling by 2^e ~ 10^k (k = -12..12), x + c, cube, sqrt, exp, log and are accepted '
+        'only if they keep every order relation among the entries in double precision.')
 KINDS = ['rank', 'sqrt', 'positive', 'custom', 'minmax', 'geotop', 'geodesic']
 RANK_METHODS = ['average', 'min', 'max', 'dense', 'ordinal']
 NAN_OK = ('rank', 'sqrt', 'positive')
@@ -69,10 +74,15 @@ BRANCHES = (['t:' + k for k in KINDS] + ['rank:' + m for m in RANK_METHODS] +
              'desc:list', 'desc:array', 'kind:inv', 'inv:both_args', 'inv:nan_shared'] +
             ['inv:' + m for m in INV_METHODS] +
             ['map:' + m for m in ('sqrt_transform', 'rank_transform', 'minmax_transform',
-                                  'positive_transform', 'affine', 'cube', 'exp', 'scale')])
+                                  'positive_transform', 'affine', 'cube', 'exp', 'scale', 'pow2', 'shift',
+                                  'sqrt', 'log')] +
+            ['scale:tiny', 'scale:huge', 'offset:huge', 'near_tie',
+             'inv:scale:tiny', 'inv:scale:huge', 'inv:offset:huge', 'inv:near_tie',
+             'inv:tau-a:scale:tiny', 'inv:tau-a:offset:huge', 'inv:tau-a:near_tie'])
 ASSUMPTIONS = [
     'IEEE evaluation of either side is within the stated tolerance of the real value (inputs are '
-    'small integers / dyadics, n <= 6)',
+    'integers / dyadics times powers of two over ~24 decades of scale, offsets up to 2^40, n <= 6; '
+    'cosine- / correlation-type cases avoid huge common offsets, geotop avoids thresholds inside a near-tie cluster)',
     'np.quantile (linear interpolation) is modelled by `quantileLin` on exact rationals and agrees '
     'within 1e-9 on every geotop case; the clipped linear map is continuous in the thresholds',
     'networkx.floyd_warshall_numpy returns shortest-path lengths (inf when unreachable); the model '
@@ -145,6 +155,16 @@ def custom_fun(fn):
         return lambda d: d ** 3
     if name == 'exp':
         return lambda d: np.exp(d / 4.0)
+    if name == 'pow2':                      # rescaling by 2**e (e ~ k*log2(10), k = -12..12): exact
+        c = 2.0 ** int(fn['e'])
+        return lambda d: d * c
+    if name == 'shift':                     # x -> x + c
+        c = _fl(fn['c'])
+        return lambda d: d + c
+    if name == 'sqrt':
+        return lambda d: np.sqrt(d)
+    if name == 'log':
+        return lambda d: np.log(d)
     if name == 'cumsum':
         return lambda d: np.cumsum(d, axis=1)
     if name == 'revrows':
@@ -216,6 +236,82 @@ def _vector(rng, m, style):
 
 
 STYLES = ['ties', 'ties', 'neg', 'neg', 'quarters', 'unit', 'unit', 'distinct', 'distinct']
+WIDE_STYLES = ['tiny', 'huge', 'offset', 'near_tie']
+
+
+def pow10_exp(k):
+    """the power of two closest to 10**k (keeps every value an integer times a power of two)"""
+    return int(round(k * math.log2(10)))
+
+
+def _wide_vector(rng, m, style, par):
+    """values whose *scale and offset* vary over ~24 decades but which stay exactly representable
+    doubles (small integers / dyadics times powers of two), so 'distinct' and 'tied' are unambiguous
+
+      tiny     small integers (with ties) times 2**e, 10**-12 <= 2**e <= 10**-6
+      huge     the same times 2**e, 10**6 <= 2**e <= 10**12
+      offset   an O(1) spread of quarters on top of a large common offset (~1e6 / ~1e9 / ~1e12)
+      near_tie clusters c*(1 + j*2**-g): exact ties (equal j) next to distinct values whose relative
+               gap is 2**-g, 1e-12 < 2**-g < 1e-6, optionally at a tiny or huge overall scale
+    """
+    if style in ('tiny', 'huge'):
+        sc = F(2) ** par['e']
+        base = [rng.randint(0, 6) for _ in range(m)] if par['ties'] else \
+            rng.sample(range(par['lo'], par['lo'] + 3 * m + 2), m)
+        return [rat(b * sc) for b in base]
+    if style == 'offset':
+        return [rat(par['off'] + F(rng.randint(-8, 24), 4)) for _ in range(m)]
+    if style == 'near_tie':
+        sc = F(2) ** par['e']
+        out = []
+        for _ in range(m):
+            c = rng.choice(par['centres'])
+            j = rng.choice([0, 0, 1, 2, 3])
+            out.append(rat(sc * c * (1 + j * F(1, 2 ** par['g']))))
+        return out
+    raise ValueError(style)
+
+
+def _wide_params(rng, style):
+    if style == 'tiny':
+        return {'e': pow10_exp(rng.randint(-12, -6)), 'ties': rng.random() < 0.6, 'lo': rng.choice([-4, 0, 1])}
+    if style == 'huge':
+        return {'e': pow10_exp(rng.randint(6, 12)), 'ties': rng.random() < 0.6, 'lo': rng.choice([-4, 0, 1])}
+    if style == 'offset':
+        return {'off': rng.choice([1, 1, 1, -1]) * 2 ** rng.choice([20, 30, 30, 40])}
+    return {'e': rng.choice([0, 0, pow10_exp(-10), pow10_exp(-7), pow10_exp(9)]),
+            'g': rng.randint(20, 39), 'centres': rng.sample(range(1, 9), rng.randint(1, 3))}
+
+
+def _stack(rng, m, n_rdm, style):
+    """`n_rdm` vectors of one style (wide styles share scale / offset over the stack)"""
+    if style in WIDE_STYLES:
+        par = _wide_params(rng, style)
+        return [_wide_vector(rng, m, style, par) for _ in range(n_rdm)]
+    return [_vector(rng, m, style) for _ in range(n_rdm)]
+
+
+def scale_tags(stack):
+    """coverage tags for the magnitude / offset / near-tie structure of the values"""
+    vals = [unrat(v) for row in stack for v in row if v is not None]
+    nz = [abs(v) for v in vals if v != 0]
+    tags = []
+    if not nz:
+        return tags
+    hi, lo = max(nz), min(nz)
+    spread = max(vals) - min(vals)
+    if hi < F(1, 10 ** 5):
+        tags.append('scale:tiny')
+    if spread > 10 ** 5 and hi > 10 ** 5:
+        tags.append('scale:huge')
+    if lo > 10 ** 5 and spread * 1000 < lo:
+        tags.append('offset:huge')
+    for row in stack:
+        d = sorted({unrat(v) for v in row if v is not None})
+        if any(0 < b - a <= max(abs(a), abs(b)) / 10 ** 6 for a, b in zip(d, d[1:])):
+            tags.append('near_tie')
+            break
+    return tags
 
 
 def _measure(rng):
@@ -244,7 +340,15 @@ def _tf_case(rng, t, nmax):
     n = rng.randint(nmin, nmax)
     m = n * (n - 1) // 2
     n_rdm = rng.choice([1, 1, 2, 3, 4])
-    x = [_vector(rng, m, rng.choice(STYLES)) for _ in range(n_rdm)]
+    # wide scales / offsets / near ties: everywhere the comparison is exact or well-conditioned
+    # (geotop thresholds inside a cluster or on top of a huge offset are rounding-dominated; the
+    # custom functions are compared exactly and a*x+b is not exact at such scales)
+    wide = {'rank': WIDE_STYLES, 'sqrt': WIDE_STYLES, 'positive': WIDE_STYLES,
+            'minmax': WIDE_STYLES, 'geodesic': WIDE_STYLES, 'geotop': ['tiny', 'huge']}.get(t, [])
+    if wide and rng.random() < 0.35:
+        x = _stack(rng, m, n_rdm, rng.choice(wide))
+    else:
+        x = [_vector(rng, m, rng.choice(STYLES)) for _ in range(n_rdm)]
     if rng.random() < 0.08:
         x[rng.randrange(n_rdm)] = _vector(rng, m, 'const')
     if t in NAN_OK and rng.random() < 0.4:
@@ -274,42 +378,109 @@ def _tf_case(rng, t, nmax):
     return case
 
 
-def _inv_map(rng, method, vec_style, has_nan, stack):
-    """a map under which `method` is invariant (and which the vectors admit)"""
-    nonneg = vec_style in ('ties', 'unit', 'nonneg_distinct')
-    ties = any(len({unrat(v) for v in row}) < len(row) for row in stack)
-    if method in RANK_BASED:
-        opts = ['rank_transform', 'affine', 'cube', 'exp', 'scale']
-        if nonneg:
-            opts += ['sqrt_transform', 'sqrt_transform', 'positive_transform']
-        if not has_nan:
-            opts += ['minmax_transform']
-        if has_nan:
-            opts = [o for o in opts if o in ('rank_transform', 'sqrt_transform', 'positive_transform',
-                                             'affine', 'scale', 'cube')]
-    elif method in ('cosine', 'cosine_cov'):
-        opts = ['scale']
-    else:
-        opts = ['affine', 'scale'] + ([] if has_nan else ['minmax_transform'])
-    name = rng.choice(opts)
+def float_map(mp):
+    """the map as a function on a float array (library transforms simulated in plain numpy), used
+    only by the generator to make sure the map is strictly increasing *in doubles* on the entries"""
+    name = mp['name']
+    if name == 'sqrt_transform':
+        return lambda d: np.sqrt(np.maximum(d, 0))
+    if name == 'positive_transform':
+        return lambda d: np.maximum(d, 0)
+    if name == 'minmax_transform':
+        return lambda d: (d - d.min(axis=1, keepdims=True)) / \
+            (d.max(axis=1, keepdims=True) - d.min(axis=1, keepdims=True))
+    if name == 'rank_transform':
+        return None
+    return custom_fun(mp)
+
+
+def order_embedding(mp, stack):
+    """does the double-precision map keep every strict order and every tie among the entries of each
+    RDM?  (x + 1e9 absorbs tiny values, exp collapses near ties, ... -- such draws are rejected so
+    that 'strictly increasing map' is unambiguous on the doubles the library sees)"""
+    f = float_map(mp)
+    if f is None:
+        return True
+    for row in stack:
+        ex = [unrat(v) for v in row]
+        with np.errstate(all='ignore'):
+            out = np.asarray(f(np.array([[float(v) for v in ex]], dtype=float)), dtype=float)[0]
+        if not np.all(np.isfinite(out)):
+            return False
+        for a in range(len(ex)):
+            for b in range(a + 1, len(ex)):
+                se = (ex[a] > ex[b]) - (ex[a] < ex[b])
+                so = int(out[a] > out[b]) - int(out[a] < out[b])
+                if se != so:
+                    return False
+    return True
+
+
+def _draw_map(rng, name, stack):
     mp = {'name': name}
     if name == 'rank_transform':
+        ties = any(len({unrat(v) for v in row}) < len(row) for row in stack)
         mp['method'] = rng.choice(['average', 'min', 'max', 'dense'] + ([] if ties else ['ordinal']))
     if name == 'affine':
         mp['a'], mp['b'] = _q(rng, 1, 12, 4), _q(rng, -8, 8, 4)
     if name == 'scale':
         mp['c'] = _q(rng, 1, 20, 4)
+    if name == 'pow2':
+        mp['e'] = pow10_exp(rng.choice([k for k in range(-12, 13) if k != 0]))
+    if name == 'shift':
+        vals = [unrat(v) for row in stack for v in row]
+        c = rng.choice([2 ** 20, -2 ** 20, 2 ** 30, -2 ** 30, 1, F(-1, 4), -min(vals), -min(vals),
+                        -(min(vals) + max(vals)) / 2])
+        mp['c'] = rat(F(c))
     return mp
+
+
+def _inv_map(rng, method, vec_style, has_nan, stack):
+    """a map under which `method` is invariant and which is strictly increasing on the entries in
+    double precision (rank-based measures) / exactly a positive scaling or well-conditioned positive
+    affine map (cosine- / correlation-type measures)"""
+    vals = [unrat(v) for row in stack for v in row]
+    nonneg = all(v >= 0 for v in vals)
+    pos = all(v > 0 for v in vals)
+    wide = vec_style in WIDE_STYLES
+    if method in RANK_BASED:
+        opts = ['rank_transform', 'pow2', 'pow2', 'shift', 'shift', 'cube', 'scale', 'affine', 'exp']
+        if nonneg:
+            opts += ['sqrt_transform', 'sqrt_transform', 'positive_transform', 'sqrt']
+        if pos:
+            opts += ['log', 'log']
+        if not has_nan:
+            opts += ['minmax_transform']
+    elif method in ('cosine', 'cosine_cov'):
+        opts = ['scale', 'pow2']
+    else:
+        opts = ['scale', 'pow2'] + ([] if wide else ['affine']) + ([] if has_nan else ['minmax_transform'])
+    for _ in range(12):
+        mp = _draw_map(rng, rng.choice(opts), stack)
+        if mp['name'] == 'pow2':
+            # stay far from overflow / underflow of the doubles (and of their squares and cubes)
+            top = max([abs(v) for v in vals if v != 0] or [F(1)])
+            if not F(1, 2 ** 90) < top * F(2) ** mp['e'] < 2 ** 90:
+                continue
+        if method not in RANK_BASED or order_embedding(mp, stack):
+            return mp
+    return {'name': 'scale', 'c': 2}        # exact in doubles, always admissible
 
 
 def _inv_case(rng, method, nmax):
     n = rng.randint(3, nmax)
     m = n * (n - 1) // 2
     nx, ny = rng.choice([1, 1, 2, 3]), rng.choice([1, 2, 2, 3])
-    sx = rng.choice(['ties', 'unit', 'nonneg_distinct', 'nonneg_distinct', 'neg', 'distinct', 'quarters'])
-    sy = rng.choice(['ties', 'unit', 'nonneg_distinct', 'neg', 'distinct', 'quarters'])
-    x = [_vector(rng, m, sx) for _ in range(nx)]
-    y = [_vector(rng, m, sy) for _ in range(ny)]
+    plain_x = ['ties', 'unit', 'nonneg_distinct', 'nonneg_distinct', 'neg', 'distinct', 'quarters']
+    plain_y = ['ties', 'unit', 'nonneg_distinct', 'neg', 'distinct', 'quarters']
+    if method in RANK_BASED:
+        wide = WIDE_STYLES                      # order is all that matters: any scale, any offset
+    else:
+        wide = ['tiny', 'huge', 'near_tie']     # a huge common offset makes centring ill-conditioned
+    sx = rng.choice(wide) if rng.random() < 0.5 else rng.choice(plain_x)
+    sy = rng.choice(wide) if rng.random() < 0.3 else rng.choice(plain_y)
+    x = _stack(rng, m, nx, sx)
+    y = _stack(rng, m, ny, sy)
     nanpos = None
     if method in ('spearman', 'rho-a', 'tau-a', 'kendall', 'cosine', 'corr') and m >= 6 \
             and rng.random() < 0.2:
@@ -455,6 +626,12 @@ def mapped_exact(mp, stack):
         return [[rat(c * unrat(v)) for v in row] for row in stack]
     if name == 'cube':
         return [[rat(unrat(v) ** 3) for v in row] for row in stack]
+    if name == 'pow2':
+        c = F(2) ** int(mp['e'])
+        return [[rat(c * unrat(v)) for v in row] for row in stack]
+    if name == 'shift':
+        c = unrat(mp['c'])
+        return [[rat(unrat(v) + c) for v in row] for row in stack]
     if name == 'positive_transform':
         return [[rat(max(unrat(v), 0)) for v in row] for row in stack]
     return None
@@ -573,11 +750,14 @@ def _vec_diff(case, impl, model):
     # geotop with (numerically) coinciding thresholds: the map is 0/0 at the threshold itself and
     # np.quantile's rounding decides on which side an entry equal to it falls -> not compared
     skip = None
-    if case['t'] == 'geotop' and abs(model['hi'] - model['lo']) <= 1e-9 * max(1.0, abs(model['lo'])):
-        skip = model['lo']
+    if case['t'] == 'geotop':
+        fv = [_fl(v) for row in case['x'] for v in row]
+        spread = max(fv) - min(fv)
+        if abs(model['hi'] - model['lo']) <= 1e-9 * spread:
+            skip = model['lo']
     for i, (r, s) in enumerate(zip(a, b)):
         for j, (u, v) in enumerate(zip(r, s)):
-            if skip is not None and abs(_fl(case['x'][i][j]) - skip) <= 1e-9 * max(1.0, abs(skip)):
+            if skip is not None and abs(_fl(case['x'][i][j]) - skip) <= 1e-9 * spread:
                 continue
             if isinstance(u, str) or isinstance(v, str) or u is None or v is None:
                 if u != v:
@@ -652,6 +832,10 @@ def features(case, impl):
             br += ['inv:both_args', 'map:' + case['fy']['name']]
         if case['nanpos']:
             br.append('inv:nan_shared')
+        tags = sorted(set(scale_tags(case['x']) + scale_tags(case['y'])))
+        br += ['inv:' + t for t in tags]
+        if case['method'] == 'tau-a':
+            br += ['inv:tau-a:' + t for t in tags]
         return {'kind': 'inv', 'method': case['method'], 'map': case['fx']['name'],
                 'map_y': case['fy']['name'] if case['fy'] else None, 'n': case['n'],
                 'sigma': 'none' if case['sigma'] is None else 'vec', 'branches': br}
@@ -678,6 +862,7 @@ def features(case, impl):
         br.append('unit_range')
     if len(case['x']) > 1:
         br.append('stack>1')
+    br += scale_tags(case['x'])
     const = any(_is_const(row) for row in case['x'])
     if const:
         br.append('constant_rdm')
